@@ -48,7 +48,9 @@ def run(ctx):
     # an integer container differently, breaks the laws between later calls)
     for i, sp in enumerate(specs):
         sp["edit"] = int(i % 2 == 0)      # shared objects overwritten in place with doubled coordinates, all calls made again
-        sp["container"] = [None, "array", "int", "array", "float32", "int"][i % 6]   # (nested lists are outside sliced_wasserstein's documented input type np.array)
+        sp["container"] = laws.pick_container(rng, sp, [None, "array", "int", "float32", "uint8", "int16", "uint16", "int32"])
+        if sp["container"] in laws.NARROW:
+            sp["edit"] = 0      # (doubling in place could leave the dtype's range)   # (nested lists are outside sliced_wasserstein's documented input type np.array)
     for sp in specs:
         e = sp["emb"]
         off = abs(float(e.t / e.s))
